@@ -215,6 +215,35 @@ func elseIf(t *T, v int) string {
 	return "ok"
 }
 
+func condForms(t *T, v int) (out string) {
+	if v > 2 && hUsesLimit(v) {
+		out += "A"
+	} else {
+		out += "a"
+	}
+	if v < 0 || hUsesLimit(v+3) {
+		out += "B"
+	} else if v == 1 || hMut(v) > 3 {
+		out += "b"
+	}
+	ok := v%2 == 0 && hMut(v) > 2 && note("after") > 0
+	out += fmt.Sprint(ok)
+	n := 0
+	for i := 0; i < 10 && hMut(i) < 9; i++ {
+		if i == 2 {
+			continue
+		}
+		n += i
+	}
+	for hMut(n) > 6 && n > 0 {
+		n -= 3
+	}
+	out += fmt.Sprint(n, isBig(v))
+	return
+}
+
+func isBig(v int) bool { return v > 1 && hUsesLimit(v*2) }
+
 func more(v int) (out string) {
 	d := &derived{name: "d"}
 	out += fmt.Sprint(hHalf()/2, d.hBump(v), d.hBump(1), hStr(nm("x")), hStr2(nm("y"), v), hMut(v))
@@ -284,6 +313,6 @@ func main() {
 	for v := -2; v < 13; v++ {
 		trace = nil
 		t := &T{n: 1}
-		fmt.Println(v, run(t, v), t.n, t.log, more(v), useUpper(v), hUpper("q"))
+		fmt.Println(v, run(t, v), t.n, t.log, more(v), condForms(t, v), useUpper(v), hUpper("q"))
 	}
 }
